@@ -16,7 +16,7 @@ ID = "C02"
 LEVEL = "exploration"
 
 PRELUDE = '''\
-from typing import Any, Callable, Dict, Iterable, List, Mapping, Optional, Sequence, Set, Tuple, Type, Union
+from typing import Any, Callable, Dict, Iterable, List, Literal, Mapping, Optional, Sequence, Set, Tuple, Type, Union
 class A: pass
 class B(A): pass
 class C: pass
@@ -41,6 +41,7 @@ VALUES = [
     ("set()", "empty"), ("{1}", "homo"), ("{'a'}", "homo"), ("{1, 'a'}", "hetero"), ("frozenset([1])", "homo"),
     ("f0", "func"), ("f1", "func"), ("f2", "func"), ("fd", "func"), ("fv", "func"),
     ("(lambda: 0)", "func"), ("(lambda a: a)", "func"),
+    ("2", "scalar"), ("'r'", "str"), ("False", "scalar"), ("[1, 2]", "homo"), ("(1, 'a', 0)", "tuple"),
 ]
 
 SCALARS = ["int", "float", "complex", "str", "bytes", "bool", "None", "object", "Any", "A", "B", "C"]
@@ -78,6 +79,12 @@ def annotations(tier):
       res.append(a)
   return res
 
+
+# PEP 586 forms: not among the PEP 484 rules this property states, so they are not judged here; C04 uses
+# the programs built from them (their error messages print merged Literal types)
+LITERAL_ANNOTATIONS = ["Literal[0]", "Literal['a']", "Literal[True]", "Literal[None]", "Literal[0, 'a']",
+                       "Literal['r', 'w', 'a', 'x']", "Literal[0, 10, 2]", "Optional[Literal['a']]", "list[Literal[1, 2]]",
+                       "Union[Literal['a'], int]", "tuple[Literal[1], Literal['a']]"]
 
 SITES = ("arg", "ret", "assign")
 
